@@ -715,6 +715,15 @@ fn apply_sack_to_sent_queue(
     outcome
 }
 
+/// Owned twin of `SctpCleanupGuard` held by the runner future itself (see `SctpTransport::new`).
+struct SctpRunnerDropGuard(Arc<SctpInner>);
+impl Drop for SctpRunnerDropGuard {
+    fn drop(&mut self) {
+        // Same cleanup as the run loop's guard; idempotent (state swap per channel).
+        drop(SctpCleanupGuard { inner: &self.0 });
+    }
+}
+
 impl<'a> Drop for SctpCleanupGuard<'a> {
     fn drop(&mut self) {
         *self.inner.state.lock() = SctpState::Closed;
@@ -889,7 +898,12 @@ impl SctpTransport {
 
         let inner_clone = inner.clone();
         let dtls_transport_clone = dtls_transport.clone();
+        // Captured by the runner future at creation: if the future is dropped before its
+        // first poll (its task is aborted right after being spawned) `run_loop` never
+        // constructs its own guard — the channels must still be closed.
+        let unpolled_guard = SctpRunnerDropGuard(inner.clone());
         let runner = async move {
+            let _unpolled_guard = unpolled_guard;
             let close_rx_2 = close_rx.clone();
             tokio::select! {
                 _ = inner_clone.run_loop(close_rx, incoming_data_rx) => {},
